@@ -87,8 +87,9 @@ impl XferCfg {
             close_when_done: false,
         }
     }
+    /// Requested value of an option; if the request repeats the option, the largest one.
     pub fn opt_num(&self, name: &str) -> Option<u64> {
-        rfc::opt(&self.opts, name).and_then(|v| v.parse().ok())
+        self.opts.iter().filter(|(k, _)| k.eq_ignore_ascii_case(name)).filter_map(|(_, v)| v.parse::<u64>().ok()).max()
     }
 }
 
@@ -136,7 +137,7 @@ fn adopt(cfg: &XferCfg, oack: &[(String, String)]) -> Negotiated {
                 n.windowsize = x.clamp(1, 65535);
             }
             ("timeout", Some(x)) => {
-                if asked != Some(x) {
+                if !cfg.opts.iter().any(|(k2, v2)| k2.eq_ignore_ascii_case(k) && v2.parse::<u64>().ok() == Some(x)) {
                     n.oack_bad = Some(format!("timeout {x} vs requested {asked:?}"));
                 }
             }
